@@ -7,6 +7,9 @@ from aioswitcher.schedule import Days, tools
 from aioswitcher.schedule.parser import get_schedules
 
 DAYS = list(Days)
+def at(now):
+    """the virtual clock is never at a whole second: a deterministic fraction in (0, 1) is added (what reads the clock must not care)"""
+    return float(now) + (int(now) % 997 + 1) / 1000.0
 ZONE = os.environ["TZ"]; TZ = zoneinfo.ZoneInfo(ZONE)
 
 
@@ -17,7 +20,7 @@ def show_schedule(s, with_display):
 
 
 def schedules(c, with_display=True):
-    with time_machine.travel(float(c["now"]), tick=False), warnings.catch_warnings():
+    with time_machine.travel(at(c["now"]), tick=False), warnings.catch_warnings():
         warnings.simplefilter("ignore")
         try:
             return "|".join(show_schedule(s, with_display) for s in sorted(get_schedules(bytes.fromhex(c["msg"])), key=lambda s: int(s.schedule_id)))
@@ -32,7 +35,7 @@ def local_facts(t):
 
 def clock(c):
     """encode a clock string now; decode it back; with oracle facts about the result"""
-    with time_machine.travel(float(c["now"]), tick=False):
+    with time_machine.travel(at(c["now"]), tick=False):
         try: hx = tools.time_to_hexadecimal_timestamp(c["s"])
         except Exception as e: return {"enc": "raised", "exc": type(e).__name__}
         try: back = tools.hexadecimale_timestamp_to_localtime(hx.encode())
@@ -47,25 +50,31 @@ def decode(c):
 
 
 def duration(c):
-    with time_machine.travel(float(c["now"]), tick=False):
+    with time_machine.travel(at(c["now"]), tick=False):
         try: return "ok " + tools.calc_duration(c["start"], c["end"])
         except Exception: return "raised"
 
 
 def next_run(c):
-    with time_machine.travel(float(c["now"]), tick=False):
+    with time_machine.travel(at(c["now"]), tick=False):
         try: txt = tools.pretty_next_run(c["start"], {DAYS[i] for i in c["days"]})
         except Exception: txt = "raised"
+        # the text as applications get it: the `display` of a schedule object (a recurring schedule with these days and this start)
+        if txt != "raised" and (int(c["now"]) // 60 + len(c["days"]) + sum(map(ord, c["start"]))) % 2 == 0:
+            from aioswitcher.schedule.parser import SwitcherSchedule
+            try: shown = SwitcherSchedule(str(int(c["now"]) % 8), bool(c["days"]), {DAYS[i] for i in c["days"]}, c["start"], "23:59").display
+            except Exception as e: shown = "raised " + type(e).__name__
+            if shown != txt: txt = "%s (SwitcherSchedule.display; pretty_next_run itself says: %s)" % (shown, txt)
     return {"text": txt, "facts_now": local_facts(c["now"])}
 
 
 def next_run_reuse(c):
     """the caller keeps one set object (a schedule's days) and asks twice, at two instants"""
     days = {DAYS[i] for i in c["days"]}
-    with time_machine.travel(float(c["first_now"]), tick=False):
+    with time_machine.travel(at(c["first_now"]), tick=False):
         try: tools.pretty_next_run(c["first_start"], days)
         except Exception: pass
-    with time_machine.travel(float(c["now"]), tick=False):
+    with time_machine.travel(at(c["now"]), tick=False):
         try: txt = tools.pretty_next_run(c["start"], days)
         except Exception: txt = "raised"
     return {"text": txt, "facts_now": local_facts(c["now"])}
